@@ -172,7 +172,7 @@ def gen_cases(ctx):
             c["disp_grid"] = {"size": sz, "spacing": sp, "center": g["center"], "direction": g["direction"], "ac": g["ac"]}
             c["lattice_other"] = [[rng.randrange(s) for s in sz] for _ in range(2)]
         # composite (sequential) classes re-express the map for ANY other grid (CompositeTransform.disp)
-        if cls in COMPOSITE:
+        if True:   # since the repair of SpatialTransform.disp every linear class does, elementary ones included
             c["disp_any"] = rgrid(rng, D)
             c["lattice_any"] = [[rng.randrange(s) for s in c["disp_any"]["size"]] for _ in range(2)]
         axes = ["grid", "cube", "cube_corners", "world"]
@@ -226,6 +226,8 @@ def gen_cases(ctx):
         c["world_points"] = [[[dy(rng, -2, 2, 2) for _ in range(D)] for _ in range(2)] for _ in range(Np)]
         if cls == "DisplacementFieldTransform" and N == 1:
             c["resize_to"] = [rng.randint(2, 6) for _ in range(D)]
+        c["disp_any"] = rgrid(rng, D)
+        c["lattice_any"] = [[rng.randrange(s) for s in c["disp_any"]["size"]] for _ in range(2)]
         cases.append(c)
     # coarse parameter lattices: stride > 1 x resize x align_corners x class; own-grid disp()/flow()/tensor() vs the point map
     combos = [(cls, st_, rs, ac) for cls in NONRIGID for st_ in (2, 3) for rs in ((False, True) if "FreeForm" not in cls else (None,))
@@ -273,9 +275,13 @@ def gen_cases(ctx):
             sz = [rng.randint(2, 4) for _ in range(D)]
             sp = [g["spacing"][j] * ((g["size"][j] - 1) / (sz[j] - 1) if g["ac"] else g["size"][j] / sz[j]) for j in range(D)]
             tg = {"size": sz, "spacing": sp, "center": g["center"], "direction": g["direction"], "ac": rng.random() < 0.5}
+            any_target = rng.random() < 0.5
+            if any_target:      # a target that is NOT a lattice of the transform's domain: the field is interpolated at the pre-mapped points
+                tg = rgrid(rng, D)
+                tg["size"] = [rng.randint(2, 4) for _ in range(D)]
             shape = list(reversed(g["size"]))
             u = [[[[dy(rng, -0.25, 0.25, 5) for _ in range(shape[1])] for _ in range(shape[0])] for _ in range(D)]]
-            tr = {"kind": "nonrigid", "cls": "DisplacementFieldTransform", "params": u}
+            tr = {"kind": "nonrigid", "cls": "DisplacementFieldTransform", "params": u, "any_target": any_target}
         else:
             tg = rgrid(rng, D)
             tg["size"] = [rng.randint(2, 4) for _ in range(D)]
@@ -341,6 +347,9 @@ def checks_for(c, r):
                 for idx, dv in zip(c["lattice_any"], r["disp_any"][kk]):
                     out.append(f"vcloser tolw (field_of_world_map (K:=QcF) {D} (world_map (K:=QcF) {D} {f} {Mq} {ac} {g}) {aca} {ga} "
                                f"(qlattice {D} {aca} {ga} {qc_vec([float(v) for v in idx])})) {qc_vec(dv)}")
+                    if D == 2 and c["cls"] in ELEMENTARY:   # the traced other-grid field itself (validates the emitted closed form)
+                        out.append(f"vcloser tolw (gen_disp_other2 (K:=QcF) {f} {ac} {aca} (gN 2 {g}) (gS 2 {g}) (gC 2 {g}) (gD 2 {g}) (gN 2 {ga}) (gS 2 {ga}) "
+                                   f"(gC 2 {ga}) (gD 2 {ga}) {Mq} (qlattice 2 {aca} {ga} {qc_vec([float(v) for v in idx])})) {qc_vec(dv)}")
             wp = c["world_points"][kk if len(c["world_points"]) > 1 else 0]
             for x, y in zip(wp, r["points_world"][kk]):
                 out.append(f"vcloser tolw (gen_points_world (K:=QcF) {D} {f} {ac} (gN {D} {g}) (gS {D} {g}) (gC {D} {g}) (gD {D} {g}) {Mq} {qc_vec(x)}) {qc_vec(y)}")
@@ -422,8 +431,16 @@ def checks_for(c, r):
             pts = c["points"][kk if len(c["points"]) > 1 else 0]
             for x, y in zip(pts, r["fwd"][kk]):
                 out.append(f"vcloser tol (qwarp_points{D} {ac} {comps} {qc_vec(x)}) {qc_vec(y)}")
+        if "disp_any" in r:
+            # dense field on ANY other grid (other domain, size, orientation, flag): the world map of x + interpolated buffer, re-expressed
+            g0, ga, aca = qgrid(r["grid"]), qgrid(r["disp_any_grid"]), cb(r["disp_any_grid"]["ac"])
+            for kk in range(N):
+                comps = " ".join(nested(r["u"][kk][d]) for d in range(D))
+                for idx, dv in zip(c["lattice_any"], r["disp_any"][kk]):
+                    out.append(f"vcloser tolw (field_of_world_map (K:=QcF) {D} (world_map_gen (K:=QcF) {D} (qwarp_points{D} {ac} {comps}) {ac} {g0}) {aca} {ga} "
+                               f"(qlattice {D} {aca} {ga} {qc_vec([float(v) for v in idx])})) {qc_vec(dv)}")
         if "disp_resized" in r:
-            # disp(grid) on a same-domain grid of another size: the buffer resampled at that grid's lattice (zero padding)
+            # disp(grid) on a same-domain grid of another size: the buffer resampled at that grid's lattice (border replication)
             g2 = qgrid(r["resized_grid"])
             m = c["resize_to"]
             for idx in [[0] * D, [v - 1 for v in m], [v // 2 for v in m]]:
@@ -431,9 +448,9 @@ def checks_for(c, r):
                 for d in range(D):
                     val = at(r["disp_resized"][0][d], idx)
                     if D == 2:
-                        out.append(f"match {lat} with [x; y] => qcloser tol (qgrid_sample2 PZeros {ac} {nested(r['u'][0][d])} x y) {qc(val)} | _ => false end")
+                        out.append(f"match {lat} with [x; y] => qcloser tol (qgrid_sample2 PBorder {ac} {nested(r['u'][0][d])} x y) {qc(val)} | _ => false end")
                     else:
-                        out.append(f"match {lat} with [x; y; z] => qcloser tol (qgrid_sample3 PZeros {ac} {nested(r['u'][0][d])} x y z) {qc(val)} | _ => false end")
+                        out.append(f"match {lat} with [x; y; z] => qcloser tol (qgrid_sample3 PBorder {ac} {nested(r['u'][0][d])} x y z) {qc(val)} | _ => false end")
             # transform(lattice, grid=True): the buffer RESIZED (F.interpolate) and added
             ms = " ".join(f"{v}%Z" for v in m)
             if D == 2:
@@ -452,6 +469,9 @@ def checks_for(c, r):
             if "M" in r:
                 M = r["M"][0]
                 out.append(f"qcloser tolw (qwarp_out{D} {pad} {form_of(M, D)} {ac} {qc_mat(M)} {tg} {g} {src} {img} {j}) {qc(val)}")
+            elif c["transform"].get("any_target"):
+                eye = "[[q 1 1; q 0 1]; [q 0 1; q 1 1]]"
+                out.append(f"qcloser tolw (qwarp_seq_out2 {pad} FA {ac} {eye} {nested(r['u'][0][0])} {nested(r['u'][0][1])} {tg} {g} {src} {img} {j}) {qc(val)}")
             else:
                 tn = " ".join(f"{v}%Z" for v in c["target"]["size"])
                 out.append(f"qcloser tolw (qwarp_nonrigid_out2 {pad} {ac} {nested(r['u'][0][0])} {nested(r['u'][0][1])} {tg} {g} {src} {tn} {img} "
@@ -581,13 +601,13 @@ MANIFEST_ENTRY = {
             "tensor() of every linear class in spatial/linear.py -- is the identity for all 12 classes and admissible dimensions, equals C07's traced parameter->matrix "
             "maps at the default literals; zero fields are the identity; (2) for a linear model transform(points), matrix(), disp (x + disp(x) = T(x)), "
             "points(grid, axes, to_grid, to_axes)/PointSetTransformer and points(axes=WORLD) are one world map re-expressed (composition of the C01 "
-            "two-grid maps); dense field on grids with the same cube frame describes that map (other domains/flags refuted); non-rigid: exact on "
+            "two-grid maps); dense field on ANY grid describes that map (own frame: matrix as is; other grids: matrix re-expressed, traced 2-D closed form proved equal); non-rigid: exact on "
             "index-affine fields, resizing == interpolating on same-domain lattices; (3) SequentialTransform.tensor of any number of members (induction) "
             "= members applied in listed order; MultiLevelTransform = x + sum of member displacements for any number of members, both the generic loop "
             "and the linear branch (sum of the member matrices - (k-1) I; inductions), members left unchanged (generated fact); generic loops of SequentialTransform/MultiLevelTransform.forward for any member list with the grid flag reaching member 0 only (traced flag table); "
             "(4) ImageTransformer output = image at the source index of T(world(x_j)) for any transform/target/source grids (2-D, 3-D; "
             "linear T; index-affine image cells); with a sequence whose first member is a dense field on same-domain target lattices of any size = "
-            "pull-back by the composition of point maps; resize-instead-of-interpolate for non-lattice targets refuted; own-grid disp of a strided "
+            "pull-back by the composition of point maps; for non-lattice targets the traced flag is false and the output is the pull-back by the composition of point maps for any three grids; own-grid disp of a strided "
             "buffer = resize model = point map on the lattice (2-D, 3-D, all sizes; traced flags/shapes reaching grid_reshape/grid_sample); "
             "generic configurable transform: traced constructor, composition order = notation, fresh linear configurations = identity. Tie: translator unit Transform "
             "(real spatial/*.py code executed symbolically, structural checks of all argument plumbing) + correspondence (model run in Coq over Qc).",
